@@ -106,7 +106,11 @@ def judgeSeqs (f : List String) (spec : String) (ss : List Str) (out : List Stri
     | some (t, k) =>
       let outs := pairs rest
       let model := ss.map fun s => outStr (translate s t)
-      let corr := outs == model
+      -- for a default id the table the harness process holds must be the regenerated one (as a map)
+      let tableSame := match k with
+        | .dflt n => canonTable (parseTable reported) == canonTable (getCodonTable n)
+        | _ => true
+      let corr := outs == model && tableSame
       let knownId := match k with | .dflt id | .rw id => Spec.Ncbi.ids.contains id | .txt => false
       let wf := decide (WFTable t)
       let emptyT := emptyTable t && k == .txt
@@ -129,6 +133,8 @@ def judgeSeqs (f : List String) (spec : String) (ss : List Str) (out : List Stri
           o0 == expect s0 &&
           (let rec go : List Str → List (List String) → Bool
             | a :: b :: more, oa :: ob :: omore =>
+              -- each piece against the spec, and the concatenation law (empty piece: API error read as "")
+              oa == expect a && ob == expect b &&
               (match pieceVal a oa, pieceVal b ob, pieceVal s0 o0 with
                | some va, some vb, some v => v == va ++ vb
                | _, _, _ => false) && go more omore
@@ -143,9 +149,12 @@ def judgeSeqs (f : List String) (spec : String) (ss : List Str) (out : List Stri
         | _ => false
       let kt := match k with | .dflt _ => "default" | .rw _ => "reweighted" | .txt => "text"
       let triv := s0.length < 3
+      let emptyPiece := (kind == "split" || kind == "tail") && ss.any (·.isEmpty)
       { corr := corr, judge := if dom then some j else none,
-        cls := (if triv then "triv:" else "") ++ kind ++ "/" ++ (if emptyT then "empty-table" else kt) ++ "/rem" ++ toString (s0.length % 3),
-        detail := if corr && j then "" else lineOf (model.flatten ++ ["expect"] ++ expect s0) }
+        cls := (if triv then "triv:" else "") ++ kind ++ "/" ++ (if emptyT then "empty-table" else kt) ++ "/rem" ++ toString (s0.length % 3) ++
+               (if emptyPiece then "/empty-piece" else ""),
+        detail := if corr && j then "" else
+          (if tableSame then "" else "TABLE HELD BY THE PROCESS ≠ REGENERATED TABLE ") ++ lineOf (model.flatten ++ ["expect"] ++ expect s0) }
   | st :: _ =>
     -- the whole request failed (bad spec / unknown op): never in domain
     { corr := false, judge := none, cls := "request-" ++ st }
